@@ -16,14 +16,17 @@
 //! `lost <cores> <n> <k>` runs the tiny real job `stream_par_iter(0..n).replication(Limited(k))
 //! .collect_vec()` on `cores` local cores and prints how many elements were lost (regression of the
 //! former finding F4: must be 0).
-use std::collections::BTreeMap;
+use std::collections::{BTreeMap, BTreeSet};
 use std::fmt::Display;
+use std::sync::atomic::{AtomicU64, Ordering};
+use std::sync::Mutex;
+use std::time::Duration;
 
 use nvh::*;
 use renoir::config::{ConfigBuilder, HostConfig};
 use renoir::operator::{Operator, StreamElement};
 use renoir::structure::BlockStructure;
-use renoir::verif::{GraphDump, ScriptOp};
+use renoir::verif::{replica_coord, Coord, GraphDump, ScriptOp};
 use renoir::{ExecutionMetadata, Replication, RuntimeConfig, Stream, StreamContext};
 
 // ---------------------------------------------------------------------------------------------
@@ -86,6 +89,28 @@ fn boxed<Op: Operator<Out = Val> + 'static>(s: Stream<Op>) -> S {
     s.add_operator(|prev| BoxOp(Box::new(prev)))
 }
 
+/// Apply the letters of a loop body (`m` map, `x` shuffle, `g` group_by, `r` nested replay with
+/// the identity body; `r` is ignored when `nested` is false) to the stream handed to the body.
+fn apply_body(mut s: S, letters: &str, nested: bool) -> S {
+    for ch in letters.chars() {
+        s = match ch {
+            'm' => boxed(s.map(|v| v)),
+            'x' => boxed(s.shuffle()),
+            'g' => boxed(s.group_by(|v: &Val| v.clone()).drop_key()),
+            'r' if nested => boxed(s.replay(
+                1,
+                Val::Int(0),
+                |s, _| s,
+                |_d: &mut i64, _v: Val| {},
+                |_s: &mut Val, _d: i64| {},
+                |_s: &mut Val| false,
+            )),
+            _ => s,
+        };
+    }
+    s
+}
+
 // ---------------------------------------------------------------------------------------------
 
 fn parse_repl(s: &str) -> Replication {
@@ -106,7 +131,7 @@ fn fmt_repl(r: Replication) -> String {
     }
 }
 
-fn coord(c: &renoir::verif::Coord) -> String {
+fn coord(c: &Coord) -> String {
     format!("{}.{}.{}", c.block_id, c.host_id, c.replica_id)
 }
 
@@ -245,16 +270,34 @@ fn build(ctx: &StreamContext, ops: &[Vec<String>]) {
                     continue;
                 }
                 let st = streams.remove(&s).unwrap();
+                let body: String = op.get(4).cloned().unwrap_or_default();
                 let (state, items) = st.iterate(
                     1,
                     0i64,
-                    |s, _| s,
+                    move |s, _| apply_body(boxed(s), &body, true),
                     |_d: &mut i64, _v: Val| {},
                     |_s: &mut i64, _d: i64| {},
                     |_s: &mut i64| false,
                 );
                 streams.insert(o1, boxed(state.map(Val::Int)));
                 streams.insert(o2, boxed(items));
+            }
+            "replay" => {
+                let (s, out) = (id(&op[1]), id(&op[2]));
+                if !streams.contains_key(&s) || streams.contains_key(&out) {
+                    continue;
+                }
+                let st = streams.remove(&s).unwrap();
+                let body: String = op.get(3).cloned().unwrap_or_default();
+                let state = st.replay(
+                    1,
+                    0i64,
+                    move |s, _| apply_body(boxed(s), &body, false),
+                    |_d: &mut i64, _v: Val| {},
+                    |_s: &mut i64, _d: i64| {},
+                    |_s: &mut i64| false,
+                );
+                streams.insert(out, boxed(state.map(Val::Int)));
             }
             _ => {}
         }
@@ -264,10 +307,148 @@ fn build(ctx: &StreamContext, ops: &[Vec<String>]) {
     }
 }
 
+// ---------------------------------------------------------------------------------------------
+// running-engine probes (C03): who receives what, observed with `verif::replica_coord()`
+
+/// (key, producer replica, consumer replica)
+static PROBE: Mutex<Vec<(u64, Coord, Coord)>> = Mutex::new(vec![]);
+static RUN: AtomicU64 = AtomicU64::new(0);
+
+fn probe(k: u64, p: Coord) {
+    PROBE.lock().unwrap().push((k, p, replica_coord().unwrap()));
+}
+
+fn parse_keys(s: &str) -> Vec<u64> {
+    s.split(',').filter(|t| !t.is_empty()).map(|t| t.split(':').next().unwrap().parse().unwrap()).collect()
+}
+
+/// `engine gb <key:hash,…>` / `engine join <key:hash,…>` / `engine fwd <R>` on the case's
+/// configuration (remote hosts become in-process hosts on distinct loopback addresses).
+fn run_engine(c: &Case, op: &[String]) -> Vec<String> {
+    let cores: Vec<u64> = if c.header.get(1).map(|s| s.as_str()) == Some("local") {
+        vec![c.header[2].parse().unwrap()]
+    } else {
+        c.ops.iter().filter(|o| o[0] == "host").map(|o| o[3].parse().unwrap()).collect()
+    };
+    if cores.is_empty() {
+        return vec![];
+    }
+    let total: u64 = cores.iter().sum();
+    let n = 2 * total;
+    let configs: Vec<RuntimeConfig> = if c.header.get(1).map(|s| s.as_str()) == Some("local") {
+        vec![RuntimeConfig::local(cores[0]).unwrap()]
+    } else {
+        let run = RUN.fetch_add(1, Ordering::SeqCst);
+        let pid = std::process::id() as u64;
+        let hs: Vec<HostConfig> = cores
+            .iter()
+            .enumerate()
+            .map(|(h, &k)| HostConfig {
+                address: format!("127.{}.{}.{}", 1 + (pid + 97) % 250, 1 + (pid / 250 + run) % 250, 1 + h),
+                base_port: 21000 + ((pid * 11 + run * 17) % 20000) as u16,
+                num_cores: k,
+                ssh: Default::default(),
+                perf_path: None,
+            })
+            .collect();
+        (0..hs.len())
+            .map(|h| ConfigBuilder::new_remote().add_hosts(&hs).host_id(h as u64).build().unwrap())
+            .collect()
+    };
+    PROBE.lock().unwrap().clear();
+    let kind = op[1].clone();
+    let arg = op.get(2).cloned().unwrap_or_default();
+    let (tx, rx) = std::sync::mpsc::channel();
+    let nconf = configs.len();
+    for config in configs {
+        let (kind, arg, tx) = (kind.clone(), arg.clone(), tx.clone());
+        std::thread::spawn(move || {
+            let r = std::panic::catch_unwind(std::panic::AssertUnwindSafe(|| {
+                let ctx = StreamContext::new(config);
+                match kind.as_str() {
+                    "gb" => {
+                        let keys = parse_keys(&arg);
+                        ctx.stream_par_iter(0..n)
+                            .flat_map(move |_| keys.clone())
+                            .map(|k| (k, replica_coord().unwrap()))
+                            .group_by(|x: &(u64, Coord)| x.0)
+                            .for_each(|(k, (_, p))| probe(k, p));
+                    }
+                    "join" => {
+                        let keys = parse_keys(&arg);
+                        let keys2 = keys.clone();
+                        let l = ctx
+                            .stream_par_iter(0..n)
+                            .flat_map(move |_| keys.clone())
+                            .map(|k| (k, replica_coord().unwrap()));
+                        let r = ctx
+                            .stream_par_iter(0..n)
+                            .flat_map(move |_| keys2.clone())
+                            .map(|k| (k, replica_coord().unwrap()));
+                        l.join(r, |x: &(u64, Coord)| x.0, |x: &(u64, Coord)| x.0)
+                            .for_each(|(k, (a, b))| {
+                                probe(k, a.1);
+                                probe(k + (1 << 32), b.1);
+                            });
+                    }
+                    _ => {
+                        ctx.stream_par_iter(0..n)
+                            .map(|_| replica_coord().unwrap())
+                            .replication(parse_repl(&arg))
+                            .for_each(|p| probe(0, p));
+                    }
+                }
+                ctx.execute_blocking();
+            }));
+            let _ = tx.send(r.is_ok());
+        });
+    }
+    for _ in 0..nconf {
+        match rx.recv_timeout(Duration::from_secs(30)) {
+            Ok(true) => {}
+            Ok(false) => return vec!["engine panic".into()],
+            Err(_) => return vec!["engine timeout".into()],
+        }
+    }
+    let probe = PROBE.lock().unwrap().clone();
+    let list = |s: &BTreeSet<Coord>| s.iter().map(coord).collect::<Vec<_>>().join(",");
+    let mut out = vec![];
+    match kind.as_str() {
+        "gb" | "join" => {
+            // per key: the consumer replicas that saw it, how many records, how many producers
+            let mut per: BTreeMap<u64, (BTreeSet<Coord>, usize, BTreeSet<Coord>)> = BTreeMap::new();
+            for (k, p, cns) in probe {
+                let e = per.entry(k).or_default();
+                e.0.insert(cns);
+                e.1 += 1;
+                e.2.insert(p);
+            }
+            for (k, (cs, cnt, ps)) in per {
+                if k >= (1 << 32) {
+                    out.push(format!("engine join-right {} {} n={cnt} p={}", k - (1 << 32), list(&cs), ps.len()));
+                } else {
+                    out.push(format!("engine {kind} {k} {} n={cnt} p={}", list(&cs), ps.len()));
+                }
+            }
+        }
+        _ => {
+            let mut per: BTreeMap<Coord, BTreeSet<Coord>> = BTreeMap::new();
+            for (_, p, cns) in probe {
+                per.entry(p).or_default().insert(cns);
+            }
+            for (p, cs) in per {
+                out.push(format!("engine fwd {} {}", coord(&p), list(&cs)));
+            }
+        }
+    }
+    out
+}
+
 fn exec(c: &Case) -> Vec<String> {
     let mut out = vec![];
     for op in &c.ops {
         match op[0].as_str() {
+            "engine" => out.extend(run_engine(c, op)),
             "isect" => {
                 let r = parse_repl(&op[1]).intersect(parse_repl(&op[2]));
                 out.push(format!("isect {}", fmt_repl(r)));
@@ -380,6 +561,37 @@ fn gen(rng: &mut Rng, i: usize) -> Case {
         c.op(&["sink", "1", "vec"]);
         return c;
     }
+    // running-engine probes (real jobs: rare, small)
+    if i % 40 == 13 {
+        let mut c;
+        let total: u64;
+        if rng.chance(1, 2) {
+            let n = rng.range(2, 4) as u64;
+            total = n;
+            c = Case::new(&["graph", "local", &n.to_string()]);
+        } else {
+            c = Case::new(&["graph", "remote"]);
+            let (a, b) = (rng.range(1, 3) as u64, rng.range(1, 3) as u64);
+            total = a + b;
+            c.ops(vec!["host".into(), "0".into(), "9500".into(), a.to_string()]);
+            c.ops(vec!["host".into(), "1".into(), "9500".into(), b.to_string()]);
+        }
+        let keys: Vec<String> = (0..rng.range(1, 6) as u64)
+            .map(|j| {
+                let k = j * 7 + rng.below(5);
+                format!("{k}:{}", renoir::group_by_hash(&k) as i64)
+            })
+            .collect();
+        match rng.below(3) {
+            0 => c.ops(vec!["engine".into(), "gb".into(), keys.join(",")]),
+            1 => c.ops(vec!["engine".into(), "join".into(), keys.join(",")]),
+            _ => {
+                let r = if rng.chance(1, 3) { "H".to_string() } else { format!("L{}", rng.range(1, total as i64)) };
+                c.ops(vec!["engine".into(), "fwd".into(), r]);
+            }
+        }
+        return c;
+    }
     // configuration
     let mut cores: Vec<u64> = vec![];
     let local = rng.chance(1, 4);
@@ -425,7 +637,7 @@ fn gen(rng: &mut Rng, i: usize) -> Case {
         }
         let k = rng.below(live.len() as u64) as usize;
         let (s, r) = live[k];
-        match rng.below(14) {
+        match rng.below(15) {
             0 => c.ops(vec!["map".into(), s.to_string()]),
             1..=3 => {
                 let name = *rng.pick(&["shuffle", "groupby", "broadcast"]);
@@ -437,11 +649,15 @@ fn gen(rng: &mut Rng, i: usize) -> Case {
                 let nr = if unsafe_mode {
                     any_repl(rng, total)
                 } else {
-                    match rng.below(4) {
+                    // from an Unlimited block every requirement gives a layout contained in the
+                    // producer's (no consumer replica without producer); Limited(k < total) and
+                    // Host exercise the fallback consumer of orphan producers
+                    match rng.below(6) {
                         0 => R::O,
                         1 => r,
-                        2 if r == R::U => R::L(total + rng.below(3)),
-                        3 if cores.len() == 1 => R::H,
+                        2 | 3 if r == R::U => R::L(rng.range(1, total as i64 + 1) as u64),
+                        4 if r == R::U || cores.len() == 1 => R::H,
+                        5 if r == R::H => R::L(rng.range(1, 3) as u64),
                         _ => R::O,
                     }
                 };
@@ -489,12 +705,28 @@ fn gen(rng: &mut Rng, i: usize) -> Case {
                 c.ops(vec!["sink".into(), s.to_string(), kind.into()]);
                 live.remove(k);
             }
-            12 if r == R::U || unsafe_mode && rng.chance(1, 4) => {
-                c.ops(vec!["iterate".into(), s.to_string(), next.to_string(), (next + 1).to_string()]);
+            12 | 13 if r == R::U || unsafe_mode && rng.chance(1, 4) => {
+                let body = *rng.pick(&["", "", "m", "x", "g", "xx", "mx", "r", "xr", "rx", "rr"]);
                 live.remove(k);
-                live.push((next, R::U));
-                live.push((next + 1, R::U));
-                next += 2;
+                if rng.chance(2, 3) {
+                    let mut w = vec!["iterate".to_string(), s.to_string(), next.to_string(), (next + 1).to_string()];
+                    if !body.is_empty() {
+                        w.push(body.into());
+                    }
+                    c.ops(w);
+                    live.push((next, R::U));
+                    live.push((next + 1, R::U));
+                    next += 2;
+                } else {
+                    let mut w = vec!["replay".to_string(), s.to_string(), next.to_string()];
+                    let body = body.replace('r', "");
+                    if !body.is_empty() {
+                        w.push(body);
+                    }
+                    c.ops(w);
+                    live.push((next, R::U));
+                    next += 1;
+                }
             }
             _ => {
                 let (a, b) = (any_repl(rng, total), any_repl(rng, total));
